@@ -113,6 +113,7 @@ fn main() {
     let mut violations = 0usize;
     let mut known_seen = vec![];
     let mut lines = vec![];
+    let mut unconfirmed: Vec<String> = vec![];
     for (key, (f, n)) in &run.findings {
         if let Some(desc) = known.lookup(&id, key) {
             known_seen.push(key.clone());
@@ -138,13 +139,21 @@ fn main() {
             }
         }
         if !confirmed {
-            machinery(&format!("nondeterminism: finding key={key} did not reproduce when its case was re-executed 5 times ({last}); detail: {}", f.detail));
+            // seen during the sweep, not reproducible from its own case: not a verdict.  If nothing
+            // else is confirmed this ends as a machinery error (below); if other findings of this
+            // run are confirmed, they are reported and this one is listed as unconfirmed.
+            unconfirmed.push(format!("UNCONFIRMED: property={id} key={key} seen {n} times during the sweep but not when its case was re-executed 5 times ({last}) - depends on what ran before it; not counted. detail: {}", f.detail.chars().take(300).collect::<String>()));
+            continue;
         }
         let path = write_replay(&root, &id, f).unwrap_or_else(|e| machinery(&e));
         violations += 1;
         lines.push(format!("VIOLATION property={id} replay={}", path.display()));
         lines.push(format!("  violation-detail: key={key} witnesses={n} :: {}", f.detail));
     }
+    if violations == 0 && !unconfirmed.is_empty() {
+        machinery(&format!("nondeterminism: {} finding(s) did not reproduce when their cases were re-executed and nothing else was found; first: {}", unconfirmed.len(), unconfirmed[0]));
+    }
+    lines.extend(unconfirmed);
     if let Err(e) = write_evidence(&ctx, &run, violations, &known_seen) {
         machinery(&e);
     }
